@@ -991,6 +991,10 @@ class Interp:
 
     # ------------------------------------------------------------------ iteration
     def iterate(self, it):
+        if is_sym(it) and it[:2] == ("op", "ljustb") and len(it) == 5 and isinstance(it[3], int) and is_sym(it[2]) and it[2][:2] == ("op", "slice") \
+                and tuple(it[2][3:]) == (None, it[3], None):
+            # x[:n].ljust(n, pad) has exactly n bytes
+            return [sym.op("item", it, i) for i in range(it[3])]
         if is_sym(it):
             raise Unsupported(f"iteration over symbolic {it!r}")
         if isinstance(it, (list, tuple, str, bytes, bytearray, range, dict, set, frozenset)):
@@ -1193,6 +1197,12 @@ class Interp:
             raise Raised(ExcVal("TypeError", args=(str(ex),))) from None
 
     def e_IfExp(self, e, env, mod):
+        # "1" if <bit> else "0"  is  str(<bit>): a canonical form, not a fork (one fork per bit would be 2^n paths)
+        if isinstance(e.body, ast.Constant) and isinstance(e.orelse, ast.Constant) and (e.body.value, e.orelse.value) == ("1", "0"):
+            t = self.ev(e.test, env, mod)
+            if is_sym(t) and t[0] == "op" and t[1] == "bit":
+                return sym.op("str", t)
+            return "1" if self.truth(t) else "0"
         return self.ev(e.body if self.truth(self.ev(e.test, env, mod)) else e.orelse, env, mod)
 
     def e_List(self, e, env, mod):
@@ -1323,6 +1333,12 @@ class Interp:
                 return getattr(_re, name)
             if obj.dotted == "inspect.Parameter" and name in ("empty", "POSITIONAL_ONLY", "POSITIONAL_OR_KEYWORD", "VAR_POSITIONAL", "KEYWORD_ONLY", "VAR_KEYWORD"):
                 return getattr(_inspect.Parameter, name)
+            if obj.dotted == "math" and name in ("inf", "pi", "e", "tau"):
+                import math as _math
+                return getattr(_math, name)
+            if obj.dotted == "sys" and name == "maxsize":
+                import sys as _sys
+                return _sys.maxsize
             return Ext(obj.dotted + "." + name)
         if isinstance(obj, SuperProxy):
             mro = obj.obj.cls.mro() if isinstance(obj.obj, Rec) else obj.obj.mro()
@@ -1411,6 +1427,13 @@ class Interp:
                     except (TypeError, ValueError):
                         parts.append(str(x))
         if symbolic:
+            # f"{a}.{b}" of strings without conversions or format specs is the concatenation a + "." + b
+            plain = all(isinstance(v, ast.Constant) or (v.format_spec is None and v.conversion == -1) for v in e.values)
+            if plain and all((not is_sym(p_) and isinstance(p_, str)) or (is_sym(p_) and sym.kind(p_) == "str") for p_ in parts):
+                out = ""
+                for p_ in parts:
+                    out = sym.cat(out, p_)
+                return out
             return sym.op("format", *parts)
         return "".join(parts)
 
@@ -1591,6 +1614,8 @@ class Interp:
             args = [a.value if isinstance(a, SymBytes) else a for a in args]
             if f in (bytes, bytearray) and len(args) == 1:
                 return args[0] if f is bytes else SymBytes(args[0])
+        if f is divmod and len(args) == 2 and any(is_sym(a) for a in args):
+            return (sym.floordiv(args[0], args[1]), sym.mod(args[0], args[1]))
         if f is len:
             x = args[0]
             if isinstance(x, SymBytes):
@@ -1815,6 +1840,9 @@ class Interp:
                     return fnc(*args)
                 except (ValueError, TypeError) as ex:
                     raise Raised(ExcVal(type(ex).__name__)) from None
+        if d == "functools.partial" and args:
+            f0, pre, prek = args[0], list(args[1:]), dict(kwargs)
+            return PyFn(lambda I_, a, k: I_.call(f0, pre + list(a), {**prek, **k}), "partial")
         if d in ("functools.lru_cache", "functools.cache", "functools.wraps"):
             # within ONE abstract run a memoised function behaves like the function (what a cache does across assemblies is rule G5.memo)
             if len(args) == 1 and not kwargs and isinstance(args[0], (Closure, Bound)) and d != "functools.wraps":
